@@ -59,10 +59,13 @@ GEN_FILE = os.path.join(C.LEAN, 'PMV', 'Gen', 'EventPaths.lean')
 
 def regen():
     tab, failures = T2.write_lean(GEN_FILE)
+    _, _, (der, dal) = T2.generate(derived=True)
     n = sum(len(T2.distinct_event_lists(i)[0]) for q, i in tab.items() if i['public'])
+    nd = sum(len({tuple(p) for p in i['paths']}) for i in der.values()) + sum(len(i['paths']) for i in dal.values())
     return {'file': 'lean/PMV/Gen/EventPaths.lean', 'source': T2.repo_root(), 'mutators': len(tab),
             'control_flow_paths': sum(len(i['paths']) for i in tab.values()),
-            'obligations': n, 'parse_failures': failures}
+            'derived_object_functions': sorted(der), 'derivative_alias_loops': sorted(dal),
+            'obligations': n + nd, 'parse_failures': failures}
 
 
 # ------------------------------------------------------------------ cases
